@@ -139,6 +139,7 @@ theorem pad10star1_bits_eq_bytes_sha3 (r : Nat) (h0 : 0 < r) (msg : List UInt8) 
       = msg ++ Fips202.padBytes r 0x06 msg.length :=
   SqiProofs.Pad.sha3_padding_bits r h0 msg
 
+set_option maxRecDepth 10000 in
 example : Fips202.padBytes 136 0x1F 135 = [0x9F] ∧ Fips202.padBytes 136 0x1F 134 = [0x1F, 0x80] ∧
     (Fips202.padBytes 136 0x1F 0).length = 136 := by decide
 
